@@ -351,4 +351,65 @@ def run(prog):
                  "the number of actions is not charged to a bounded budget in the nesting counter (every parsed action) and at `@alias` "
                  "references (the alias's whole action again): aliases share actions, so a few dozen aliases that each use the previous "
                  "one twice describe a tree of 2^n actions that the post-parse passes walk node by node")
+
+    # ---- 7. an action that is stored twice in its parent is charged twice
+    # (aliases share actions: `hold` and `timeout_action` of a tap-hold without an explicit timeout action are the same
+    #  parsed action, so a chain of aliases through it doubles the tree per level while the plain count grows by one)
+    def origin(g, op):
+        """the call (block) whose result `op` is, looking through `?`"""
+        R = Resolver(g)
+        for _ in range(4):
+            r = R.root(op)
+            if r[0] != "call":
+                return None
+            t = r[1][1]
+            cn = callee_name(t) or ""
+            if cn.endswith("Try>::branch") or cn.split("::")[-1] in ("unwrap", "expect", "clone", "deref"):
+                if not t["args"]:
+                    return None
+                op = t["args"][0]
+                continue
+            return (r[1][0], cn)
+        return None
+    n_twice = 0
+    for g in sorted(prog.fns.values(), key=lambda x: x.norm):
+        if g.crate != "kanata_parser" or g.derive:
+            continue
+        for bi, si, st in g.all_rvalues():
+            rv = st["rv"]
+            if rv["k"] != "agg" or not (rv.get("adt") or "").startswith("kanata_keyberon::action::") or len(rv.get("ops") or []) < 2:
+                continue
+            seen = {}
+            for i, op in enumerate(rv["ops"]):
+                o = origin(g, op)
+                if o is None:
+                    continue
+                cal = prog.fn_opt(norm_name(o[1]))
+                if cal is None or "Action<" not in (cal.ret_ty if hasattr(cal, "ret_ty") else (cal.local_ty(0) or "")):
+                    continue
+                seen.setdefault(o, []).append(i)
+            for o, idxs in seen.items():
+                if len(idxs) < 2:
+                    continue
+                n_twice += 1
+                short = o[1].split("::")[-1]
+                # charged twice = parsed by a function that parses the action and then charges the counter for what was parsed
+                cnorms = {c.norm for c in counters}
+                cal = prog.fn_opt(norm_name(o[1]))
+                callees = {norm_name(callee_name(t2) or "") for _, t2 in cal.calls()}
+                okd = bool(callees & cnorms) and any(
+                    (lambda h: h is not None and "Action<" in (h.local_ty(0) or ""))(prog.fn_opt(c)) for c in callees - cnorms)
+                key = "actions/stored-twice-charged-twice|%s" % g.norm.split("::")[-1]
+                res.inst(key, where="%s:%s" % (g.file, g.line_of(bi, si)), parsed_by=short, ok=okd)
+                res.oblige(okd)
+                if not okd:
+                    res.viol(key, "%s:%s" % (g.file, g.line_of(bi, si)),
+                             "%s stores the action parsed by %s in two fields of %s, but the action is charged to the action budget only "
+                             "once (it is not parsed with parse_hold_action_also_used_on_timeout). Aliases share actions: a chain of ~40 "
+                             "aliases through this parameter describes a tree of 2^40 actions whose count grows by one per alias, so "
+                             "the limit never triggers and the passes that walk the tree after parsing do not terminate"
+                             % (g.norm.split("::")[-1], short, rv["adt"].split("::")[-1]))
+    if n_twice < 2:
+        res.viol("actions/stored-twice-charged-twice|anchor", "parser/src/cfg/mod.rs",
+                 "the tap-hold parsers that store the hold action twice (hold, timeout_action) were not found (%d)" % n_twice)
     return res
